@@ -68,36 +68,31 @@ constexpr std::array<std::tuple<FloatType, std::tuple<int8_t, int8_t>>, llr_size
 
     constexpr int8_t limit = llr_limit<LLR>();
     constexpr FloatType inc = 1.0 / FloatType(limit);
-    int8_t i = limit;
-    int8_t j = limit;
 
-    // Output must be ordered by k, ascending.
+    // Output must be ordered by k, ascending.  Entry n holds the LLR pair for
+    // samples in (k[n-1], k[n]].  The pair is derived from the entry's position
+    // within its unit-wide segment rather than from the accumulated threshold,
+    // so it does not depend on how k happens to round.
     FloatType k = -3.0 + inc;
     for (size_t index = 0; index != size; ++index)
     {
         auto& a = result[index];
+        int8_t r = index % limit;       // position within the segment
+        int8_t i = limit;
+        int8_t j = limit;
+        switch (index / limit)
+        {
+        case 0: i = limit;          j = limit - r;      break;  // (-3, -2]
+        case 1: i = limit;          j = -(r + 1);       break;  // (-2, -1]
+        case 2: i = limit - r;      j = -limit;         break;  // (-1,  0]
+        case 3: i = -(r + 1);       j = -limit;         break;  // ( 0,  1]
+        case 4: i = -limit;         j = -(limit - r);   break;  // ( 1,  2]
+        case 5: i = -limit;         j = r + 1;          break;  // ( 2,  3]
+        default: i = -limit;        j = limit;          break;  // above 3
+        }
         std::get<0>(a) = k;
         std::get<0>(std::get<1>(a)) = i;
         std::get<1>(std::get<1>(a)) = j;
-
-        if (k + 1.0 < 0)
-        {
-            j--;
-            if (j == 0) j = -1;
-            if (j < -limit) j = -limit;
-        }
-        else if (k - 1.0 < 0)
-        {
-            i--;
-            if (i == 0) i = -1;
-            if (i < -limit) i = -limit;
-        }
-        else
-        {
-            j++;
-            if (j == 0) j = 1;
-            if (j > limit) j = limit;
-        }
         k += inc;
     }
     return result;
